@@ -10,7 +10,8 @@ META = {
     "level": "model_checking",
     "text": "PickDone.tla states the Done-exactly-once accounting of an RPC's attempts (pick, not-ready re-pick, stream-creation "
             "failure with transparent retry, REFUSED_STREAM transparent retry, configured retry after UNAVAILABLE, success, server "
-            "error, cancel before/after headers, deadline; unary and streaming) and TLC checks it with two negative controls; every "
+            "error, cancel before/after headers, deadline, invalid pick-result metadata, context end while blocked in pick; contexts "
+            "with and without a custom cause; unary and streaming) and TLC checks it with three negative controls; every "
             "finished behaviour of the model is a scenario that is replayed end to end on a real grpc.ClientConn (instrumented "
             "balancer selected by service config, picker tagging every result and recording Done; scripted raw HTTP/2 server over "
             "bufconn in a testing/synctest bubble), and the recorded pick/done/rpc_end events are validated by TLC against the "
@@ -35,25 +36,26 @@ def run(ctx):
     ctx.mc("PickDone", "PickDoneMC.cfg", workers=2)
     ctx.neg("PickDone", "PickDoneNeg1.cfg", expect="I_DoneOnFinish", workers=1)
     ctx.neg("PickDone", "PickDoneNeg2.cfg", expect="I_DoneAtMostOnce", workers=1)
+    ctx.neg("PickDone", "PickDoneNeg3.cfg", expect="I_DoneOnFinish", workers=1)
     binary = ctx.go_build("internal/zzverif/c23")
 
     # scenarios = the finished behaviours of the model (the state carries the script: the graph is a tree)
     g = ctx.dump_graph("PickDone", ctx.pick("PickDoneGen.cfg", "PickDoneGenBig.cfg"), workers=2)
     scns = []
     for nid, text in g.nodes.items():
-        st = parse_tla_state(text, only={"mode", "script", "finished"})
+        st = parse_tla_state(text, only={"mode", "cause", "script", "finished"})
         if st["finished"]:
-            scns.append({"mode": st["mode"], "script": st["script"]})
-    scns.sort(key=lambda s: (s["mode"], s["script"]))
+            scns.append({"mode": st["mode"], "cause": st["cause"], "script": st["script"]})
+    scns.sort(key=lambda s: (s["mode"], s["cause"], s["script"]))
     if not scns:
         raise Inconclusive("no scenarios generated")
-    limit = ctx.pick(120, None)
+    limit = ctx.pick(160, None)
     if limit and len(scns) > limit:
         # keep every (pre, final, mode) combination and every fault at least once, then a seeded sample
         keep, seen = [], set()
         ctx.rng.shuffle(scns)
         for s in scns:
-            k = (s["mode"], s["script"][0], s["script"][-1])
+            k = (s["mode"], s["cause"], s["script"][0], s["script"][-1])
             k2 = tuple(s["script"][1:-1])
             if k not in seen or k2 not in seen:
                 seen.add(k)
@@ -69,14 +71,18 @@ def run(ctx):
     s = summary(out)
     ctx.log("e2e: %d scenarios, %d pick results with Done, main RPC codes %s, bubble failures %d" %
             (s["scenarios"], s["picks"], s["main_codes"], s["bubble_failures"]))
+    if s.get("stuck"):
+        ctx.log("a scenario was abandoned by the real-time watchdog (stuck): the scenarios after it were not run")
     if s["bubble_failures"]:
         raise Inconclusive("%d scenarios did not run to completion (synctest bubble panic)" % s["bubble_failures"])
-    if s["picks"] < len(scns):
+    if s["picks"] < len(scns) and not s.get("stuck"):
         raise Inconclusive("the instrumented picker was not used (picks=%d)" % s["picks"])
     for sc in scns:
-        ctx.count([sc["mode"]] + sc["script"], nontrivial=True)
+        ctx.count([sc["mode"], sc["cause"]] + sc["script"], nontrivial=True)
     ctx.sample(scns[len(scns) // 2])
     res = ctx.validate("PickDoneTrace", "PickDoneTrace.cfg", tpath)
+    if res["accepted"] and s.get("stuck"):
+        raise Inconclusive("a scenario was abandoned by the watchdog although the RPC's context had not ended")
     if not res["accepted"]:
         idx, seg = ctx.trace_segment(tpath, res["line"])
         scn = next((json.loads(x) for x in seg if '"ev":"scn"' in x), None)
@@ -85,7 +91,9 @@ def run(ctx):
     ctx.cov["rule"] = ("scenarios = finished behaviours of PickDone.tla: {unary, stream} x first-attempt fault {none, not-ready "
                        "subchannel, stream creation fails on a just-closed transport} x up to 2 (thorough: 3) server faults "
                        "{REFUSED_STREAM, UNAVAILABLE trailers-only} x final {success, server error, cancel before headers, cancel "
-                       "after headers, deadline}; quick tier: a seeded sample of 120 covering every (mode, first fault, final) "
+                       "after headers, deadline}, plus first pick with invalid metadata and RPC blocked in pick until cancel / "
+                       "deadline; each with a plain context and with a custom-cause context; quick tier: a seeded sample of 160 "
+                       "covering every (mode, cause, first fault, final) "
                        "combination; each replayed on a real ClientConn; Done counted per pick id by TLC")
     ctx.assumptions += ["the instrumented balancer is a legal LB policy (one SubConn, lazy picker updates)",
                         "an RPC has finished when Invoke / the last RecvMsg returned and synctest.Wait() reported quiescence"]
